@@ -162,7 +162,7 @@ let multi_section (s : tstate) : bool =
 type case_state = {
   id : int; seed : string; mutable r : trs option; mutable univ : bytes list;
   mutable steps : int; mutable nontrivial : int; mutable withkids : int;
-  mutable mism : int; mutable skipped : string option; mutable childops : bool;
+  mutable mism : int; mutable skipped : string option; mutable childops : bool; mutable held_refs : (int * rtree) list;
 }
 
 let cur_items : Sexp.t list ref = ref []
@@ -208,6 +208,11 @@ let () =
             match List.find_opt (fun (i, _) -> int_of_nat i = int_of_nat id) r.theld with
             | Some (_, hs) -> if not (rnode_eqb (reads_of c.univ hs) rd) then add (Printf.sprintf "tmodel:held%d" (int_of_nat id))
             | None -> add (Printf.sprintf "tmodel:held%d" (int_of_nat id))) o.to_held;
+        (* specification: a held snapshot still reads the reference tree of the moment it was taken *)
+        List.iter (fun (id, rd) ->
+            match List.assoc_opt (int_of_nat id) c.held_refs with
+            | Some rt0 -> if not (rnode_eqb (ref_reads c.univ rt0) rd) then add (Printf.sprintf "tspec:held%d" (int_of_nat id))
+            | None -> add (Printf.sprintf "tspec:held%d" (int_of_nat id))) o.to_held;
         (* specification *)
         let rt = tref_now r in
         let sreads = ref_reads c.univ rt in
@@ -256,7 +261,7 @@ let () =
              cur := Some { id = int_of_sx id; seed; r = Some (trinit c);
                            univ = List.map (function Sexp.A a -> bytes_of_atom a | _ -> failwith "univ") univ;
                            steps = 0; nontrivial = 0; withkids = 0; mism = 0;
-                           skipped = (if kind = "map" then Some "map-lower-level" else None); childops = false }
+                           skipped = (if kind = "map" then Some "map-lower-level" else None); childops = false; held_refs = [] }
          | _ -> failwith "case line")
     | "init" ->
         (match !cur with
@@ -286,6 +291,10 @@ let () =
                    | Some r' ->
                        c.r <- Some r';
                        (match l with
+                        | THSnap id -> c.held_refs <- (int_of_nat id, tref_now r) :: c.held_refs
+                        | THSnapClose id -> c.held_refs <- List.filter (fun (i, _) -> i <> int_of_nat id) c.held_refs
+                        | _ -> ());
+                       (match l with
                         | THClose _ ->
                             (* held snapshots stay readable while everything is closed *)
                             (match Sexp.field "held" (Sexp.args osx) with
@@ -293,22 +302,39 @@ let () =
                                  let bad = List.filter_map (function
                                      | Sexp.L [id; rd] ->
                                          let idn = int_of_sx id in
-                                         (match List.find_opt (fun (i, _) -> int_of_nat i = idn) r'.theld with
-                                          | Some (_, hs) -> if rnode_eqb (reads_of c.univ hs) (rnode_of_sx rd) then None
+                                         (match List.find_opt (fun (i, _) -> int_of_nat i = idn) r'.theld, List.assoc_opt idn c.held_refs with
+                                          | Some (_, hs), Some rt0 ->
+                                            if not (rnode_eqb (ref_reads c.univ rt0) (rnode_of_sx rd)) then Some (Printf.sprintf "tspec:held%d" idn)
+                                            else if rnode_eqb (reads_of c.univ hs) (rnode_of_sx rd) then None
                                             else Some (Printf.sprintf "tmodel:held%d" idn)
-                                          | None -> Some (Printf.sprintf "tmodel:held%d" idn))
+                                          | _, _ -> Some (Printf.sprintf "tmodel:held%d" idn))
                                      | _ -> None) items in
                                  if bad <> [] then begin
                                    c.mism <- c.mism + 1;
                                    Printf.printf "MISMATCH case=%d seed=%s step=%d label=close kinds=%s\n" c.id c.seed c.steps (String.concat "," bad)
                                  end
                              | None -> ())
+                        | _ when Sexp.head osx = "noobs" -> ()   (* blind step: nothing was read, nothing to compare *)
                         | _ ->
                             cur_items := Sexp.args osx;
-                            check c (Sexp.head lsx) (obs_of_sx osx);
+                            let o = obs_of_sx osx in
+                            check c (Sexp.head lsx) o;
+                            (match l, o.to_store with
+                             | THPBegin (PCompact O), Some f when not (fnode_full_shape_ok f) ->
+                                 c.mism <- c.mism + 1;
+                                 Printf.printf "MISMATCH case=%d seed=%s step=%d label=pbegin kinds=tspec:full-compaction-shape\n  store after full compaction=%s\n"
+                                   c.id c.seed c.steps (ofn_sx (Some f))
+                             | _ -> ());
                             (match trstep r' (THSnap (nat_of_int 0)) with
                              | Some r2 -> c.r <- Some { r2 with theld = r'.theld }
                              | None -> ()))))
+         | _ -> ())
+    | "specviolation" ->
+        (match !cur, Sexp.args sx with
+         | Some c, Sexp.A kind :: rest when c.skipped = None ->
+             c.mism <- c.mism + 1;
+             Printf.printf "MISMATCH case=%d seed=%s step=%d label=specviolation kinds=%s\n  %s\n" c.id c.seed c.steps kind
+               (String.concat " " (List.map Sexp.to_string rest))
          | _ -> ())
     | "error" ->
         (match !cur with
